@@ -88,10 +88,31 @@ Definition dict_update (self new : attrs) : attrs :=
   fold_left (fun m kv => set_item (fst kv) (snd kv) m) new self.
 
 (* ---- TagAttrDict.update -------------------------------------------------------- *)
+(* isinstance(v, HTML) *)
+Definition aval_is_html (v : aval) : bool :=
+  match v with AHtml _ => true | AStr _ => false end.
+
+(* if not isinstance(v, HTML): v = HTML(html_escape(v, attr=True)) *)
+Definition coerce_html (v : aval) : aval :=
+  match v with
+  | AStr s => AHtml (html_escape true s)
+  | AHtml s => AHtml s
+  end.
+
+(* old = attrz[nm]
+   if isinstance(old, HTML) or isinstance(val, HTML):
+       if not isinstance(old, HTML): old = HTML(html_escape(old, attr=True))
+       if not isinstance(val, HTML): val = HTML(html_escape(val, attr=True))
+   val = old + space + val                      -- (old + space) + val, Python + *)
+Definition merge_vals (old val : aval) : aval :=
+  let old' := if aval_is_html old || aval_is_html val then coerce_html old else old in
+  let val' := if aval_is_html old || aval_is_html val then coerce_html val else val in
+  py_add (py_add old' space) val'.
+
 (* for k, v in arg.items():
        val = normalize_value(v);  if val is None: continue
        nm = normalize_name(k)
-       if nm in attrz: val = attrz[nm] + space + val     -- (attrz[nm] + space) + val
+       if nm in attrz: val = merge of attrz[nm] and val (above)
        attrz[nm] = val *)
 Fixpoint update_items (items : pydict) (attrz : attrs) : res attrs :=
   match items with
@@ -103,7 +124,7 @@ Fixpoint update_items (items : pydict) (attrz : attrs) : res attrs :=
     | Ok (Some val) =>
       let nm := norm_name k in
       let val' := match lookup nm attrz with
-                  | Some old => py_add (py_add old space) val
+                  | Some old => merge_vals old val
                   | None => val
                   end in
       update_items rest (set_item nm val' attrz)
